@@ -347,7 +347,12 @@ class MessageManager(ClientLike):
                     )
 
         else:
-            module.mod_id = self.assign_module_id()
+            try:
+                module.mod_id = self.assign_module_id()
+            except RuntimeError:
+                # All dynamic ids are in use: refuse this client only
+                self.remove_module(module)
+                return False
 
         module.connected = True
 
